@@ -398,20 +398,35 @@ class Engine:
     def ev_Dict(self, n, st):
         hint = getattr(n, "_dict_hint", None)
         kt, vt = hint if hint else (STR, ANY)
-        keys = [k for k in n.keys]
-        if any(k is None for k in keys):
-            raise Unsupported("dict unpacking in literal")
-        for st2, items in self.ev_list(list(n.keys) + list(n.values), st):
+        # {**a, k: v, **b}: entries in document order, later ones override (a None key marks an unpacked dict)
+        exprs = [v if k is None else k for k, v in zip(n.keys, n.values)] + [v for k, v in zip(n.keys, n.values) if k is not None]
+        for st2, items in self.ev_list(exprs, st):
             if isinstance(items, Raised):
                 yield st2, items
                 continue
-            ks, vs = items[:len(n.keys)], items[len(n.keys):]
+            firsts = items[:len(n.keys)]
+            rest = iter(items[len(n.keys):])
             d = st2.new_ref(DICT(kt, vt))
             dom = z3.K(sort_of(kt), z3.BoolVal(False))
             val = z3.Const("dval0!%d" % id(n), z3.ArraySort(sort_of(kt), sort_of(vt)))
-            for k, v in zip(ks, vs):
-                dom = z3.Store(dom, coerce(k, kt).t, True)
-                val = z3.Store(val, coerce(k, kt).t, coerce(v, vt).t)
+            empty = True
+            for k_ast, first in zip(n.keys, firsts):
+                if k_ast is None:
+                    if not is_dictlike(first.ty):
+                        raise Unsupported("** of %s in a dict literal" % first.ty)
+                    if dict_tys(first.ty) != (kt, vt):
+                        raise Unsupported("** of a %s into a dict literal of %s" % (first.ty, DICT(kt, vt)))
+                    d2, v2 = st2.dict_get(first)
+                    if empty:
+                        dom, val = d2, v2          # {**a, ...}: starts as a copy of a
+                    else:
+                        dom, val = ops.dict_merge(dom, val, d2, v2, kt, vt)
+                    empty = False
+                else:
+                    v = next(rest)
+                    dom = z3.Store(dom, coerce(first, kt).t, True)
+                    val = z3.Store(val, coerce(first, kt).t, coerce(v, vt).t)
+                    empty = False
             st2.dict_set(d, dom, val)
             yield st2, d
 
@@ -501,6 +516,19 @@ class Engine:
                         yield st3, Raised(Exc(ZeroDivisionError, origin="line %d" % n.lineno))
                     else:
                         yield st3, ops.binop(st3, op, a, b)
+                continue
+            if op in ("+", "-") and {a.ty.kind, b.ty.kind} <= {"any", "int"} and "any" in (a.ty.kind, b.ty.kind) \
+                    and not getattr(self.contract, "opaque_attrs", False):
+                # arithmetic on a dynamically typed operand: proved to be an int (obligation), then exact
+                unb = ops.UF("unbox_int", z3.IntSort(), z3.IntSort())
+                def as_int(v):
+                    if v.ty.kind == "int":
+                        return v.t
+                    self.oblige(st2, box(V(INT, unb(v.t))).t == v.t, "operand-is-int:L%d" % n.lineno, "P", "type",
+                                "the dynamically typed operand of %s at line %d is an int" % (op, n.lineno))
+                    return unb(v.t)
+                x, y = as_int(a), as_int(b)
+                yield st2, box(V(INT, x + y if op == "+" else x - y))
                 continue
             if (a.ty.kind == "any" or b.ty.kind == "any") and getattr(self.contract, "opaque_attrs", False):
                 # operator on an arbitrary object: __add__/__radd__ ... may return anything or raise
